@@ -15,7 +15,7 @@ INFO = {
                   "MultiImage.combine_axes", "MultiImage.append"],
     "bounds": {
         "quick": "n<=3, past<=3, 7 signatures (dynamic-only, dynamic+constant, constant-only types; 1-2 channels; both key orders), d=2 1x2 images",
-        "thorough": "n<=5, past<=4",
+        "thorough": "n<=6, past<=5",
     },
     "outside": ["future_steps != 1 (the code asserts 1)"],
     "assumptions": ["inner model = uninterpreted function of its input in canonical (sorted-type) order: real models read blocks by type, not by "
@@ -35,7 +35,7 @@ SIGS = [
 
 
 def cells(tier, seed):
-    nmax, pmax = (3, 3) if tier == "quick" else (5, 4)
+    nmax, pmax = (3, 3) if tier == "quick" else (6, 5)
     out = []
     for si in range(len(SIGS)):
         for n in range(1, nmax + 1):
